@@ -39,9 +39,13 @@ type Ptr struct {
 	cell *Value
 	barr *ByteArr
 	bidx *term.T
+	// element of a vector of scalar cells selected by a symbolic index (read-only use: created only when every
+	// referrer of the IndexAddr is a load); a load yields an ite-chain over the elements instead of forking per index
+	cells []Value
+	cidx  *term.T
 }
 
-func (p Ptr) IsNil() bool { return p.cell == nil && p.barr == nil }
+func (p Ptr) IsNil() bool { return p.cell == nil && p.barr == nil && p.cells == nil }
 
 type Backing struct {
 	cells []Value
